@@ -24,3 +24,10 @@ func SortedKeys[K cmp.Ordered, V any](m map[K]V) []K {
 
 // Descending flips SortedKeys (explored as a second configuration in thorough tiers).
 var Descending bool
+
+// PErr is `x.Err()` in instrumented code: a scheduling point before reading
+// cancellation state that another thread may change.
+func PErr[T interface{ Err() error }](x T) error {
+	Point("Err", nil)
+	return x.Err()
+}
